@@ -1,23 +1,30 @@
 (* C12 — the two fill_buf/consume scanners of noodles-fasta that carry state across buffer
    refills, over the BufReader model (windows = whatever one inner read delivered).
+   This is the REPAIRED code (fixes fasta-bare-cr / fasta-midline-gt / interrupted-surfaced).
 
-   noodles-fasta/src/io/reader/sequence.rs
-     consume_empty_lines: loop { if fill_buf()?.starts_with(CR) {consume(1)}
-                                 if fill_buf()?.starts_with(LF) {consume(1)}  until neither }
-     Reader::fill_buf:    consume_empty_lines; src = fill_buf()?;
-                          empty or src[0] == '>'  -> end of sequence (empty slice)
-                          line = src up to the first LF in THIS window (or the whole window);
-                          a trailing CR of that slice is dropped
-     read_sequence = read_to_end over that reader: pieces are appended until an empty one.
-     (Modelled at the sequence_reader() BufRead interface: fill_buf, consume(whole piece).  A
-     fill_buf()? that meets Interrupted returns the error to the caller.)
+   noodles-fasta/src/io/reader/sequence.rs, Reader { inner, is_bol, has_pending_cr }:
+     fill_buf: loop {
+         src = match inner.fill_buf() { Ok(s) => s, Err(Interrupted) => continue, Err(e) => return Err(e) };
+         if has_pending_cr { if src.first() is Some(b) and b != LF { return [CR] }   // held-back CR is data
+                             has_pending_cr = false }
+         b = src.first() else return []                                            // end of input
+         if b == LF || (is_bol && b == CR) { inner.consume(1); is_bol = true; continue }
+         if is_bol && b == '>' { return [] }                                       // next definition
+         line = src up to the first LF in THIS window (or the whole window)
+         match line.strip_suffix([CR]) { Some([]) => { inner.consume(1); has_pending_cr = true }   // continue
+                                         Some(l) | None => return that slice } }
+     consume(amt > 0): if has_pending_cr { has_pending_cr = false } else { inner.consume(amt); is_bol = false }
+     read_sequence = read_to_end over that reader (modelled at the BufRead interface: fill_buf,
+     consume(whole slice), until an empty slice).  The final `inner.fill_buf()` that re-borrows the
+     (non-empty) buffer to build the returned slice performs no read and is not modelled.
 
    noodles-fasta/src/io/indexer.rs::consume_sequence_line
-     loop { src = fill_buf()?; if is_eol || src.is_empty() || src[0] == '>' {break}
-            (chunk_len, bases) = match memchr(LF, src) { Some(i) => (is_eol = true; i+1, count_bases(src[..i]))
-                                                         None    => (src.len(), count_bases(src)) }
-            consume(chunk_len); bytes_read += chunk_len; base_count += bases }
-     count_bases(buf) = buf.len() - 1 if buf ends with CR else buf.len()  -- per WINDOW. *)
+     loop { src = fill_buf (Interrupted => continue);
+            if is_eol || src.is_empty() || (bytes_read == 0 && src[0] == '>') {break}
+            (chunk_len, chunk) = match memchr(LF, src) { Some(i) => (is_eol = true; i+1, src[..i]) | None => (len, src) }
+            if let Some(b) = chunk.last() { ends_with_cr = b == CR }
+            base_count += chunk.len(); bytes_read += chunk_len; consume(chunk_len) }
+     if ends_with_cr { base_count -= 1 } *)
 From Coq Require Import List NArith Arith Bool.
 From NV Require Import Io.Source Io.BufReader.
 Import ListNotations.
@@ -30,7 +37,7 @@ Fixpoint until_lf (w : list N) : list N :=
   | x :: r => if N.eqb x LF then [] else x :: until_lf r
   end.
 
-(* if l.ends_with(CR) { &l[..l.len()-1] } else { l } *)
+(* l.strip_suffix([CR]).unwrap_or(l) *)
 Fixpoint strip_cr (l : list N) : list N :=
   match l with
   | [] => []
@@ -40,111 +47,129 @@ Fixpoint strip_cr (l : list N) : list N :=
               end
   end.
 
-Inductive sres := SOk | SInt | SNoFuel.
+(* l.last() == Some(CR) *)
+Fixpoint last_cr (l : list N) : bool :=
+  match l with
+  | [] => false
+  | x :: r => match r with [] => N.eqb x CR | _ => last_cr r end
+  end.
+
+Inductive sres := SOk | SNoFuel.
+
+(* reader state: is_bol, has_pending_cr, BufReader state *)
+Definition sstate (S : Type) : Type := (bool * bool * bstate S)%type.
 
 Section Scan.
   Context {S : Type}.
   Variable rd : reader S.
   Variable cap : nat.
 
-  Definition strip_if (b : N) (w : list N) (st : bstate S) : bool * bstate S :=
-    match w with
-    | x :: _ => if N.eqb x b then (true, br_consume 1 st) else (false, st)
-    | [] => (false, st)
-    end.
-
-  Fixpoint consume_empty_lines (fuel : nat) (st : bstate S) : sres * bstate S :=
+  Fixpoint seq_fill_buf (fuel : nat) (is_bol pending : bool) (st : bstate S)
+    : sres * list N * sstate S :=
     match fuel with
-    | 0 => (SNoFuel, st)
+    | 0 => (SNoFuel, [], (is_bol, pending, st))
     | Datatypes.S fuel' =>
       match br_fill_buf rd cap st with
-      | (RInt, st1) => (SInt, st1)
-      | (ROk w1, st1) =>
-        let '(nl1, st2) := strip_if CR w1 st1 in
-        match br_fill_buf rd cap st2 with
-        | (RInt, st3) => (SInt, st3)
-        | (ROk w2, st3) =>
-          let '(nl2, st4) := strip_if LF w2 st3 in
-          if nl1 || nl2 then consume_empty_lines fuel' st4 else (SOk, st4)
-        end
+      | (RInt, st1) => seq_fill_buf fuel' is_bol pending st1
+      | (ROk src, st1) =>
+        if pending && match src with x :: _ => negb (N.eqb x LF) | [] => false end
+        then (SOk, [CR], (is_bol, true, st1))
+        else
+          match src with
+          | [] => (SOk, [], (is_bol, false, st1))
+          | b :: _ =>
+            if N.eqb b LF || (is_bol && N.eqb b CR) then
+              seq_fill_buf fuel' true false (br_consume 1 st1)
+            else if is_bol && N.eqb b GT then (SOk, [], (is_bol, false, st1))
+            else
+              let line := until_lf src in
+              match strip_cr line with
+              | [] => seq_fill_buf fuel' is_bol true (br_consume 1 st1)   (* line = [CR] *)
+              | piece => (SOk, piece, (is_bol, false, st1))
+              end
+          end
       end
     end.
 
-  (* sequence::Reader::fill_buf: (status, slice returned, state) *)
-  Definition seq_fill_buf (fuel : nat) (st : bstate S) : sres * list N * bstate S :=
-    match consume_empty_lines fuel st with
-    | (SOk, st1) =>
-      match br_fill_buf rd cap st1 with
-      | (RInt, st2) => (SInt, [], st2)
-      | (ROk src, st2) =>
-        match src with
-        | [] => (SOk, [], st2)
-        | x :: _ => if N.eqb x GT then (SOk, [], st2)
-                    else (SOk, strip_cr (until_lf src), st2)
-        end
-      end
-    | (e, st1) => (e, [], st1)
+  Definition seq_consume (amt : nat) (s : sstate S) : sstate S :=
+    match amt with
+    | 0 => s
+    | _ => let '(is_bol, pending, st) := s in
+           if pending then (is_bol, false, st) else (false, false, br_consume amt st)
     end.
 
   (* the caller's loop: fill_buf, take the whole slice, consume it, stop at an empty slice *)
-  Fixpoint read_sequence (fuel : nat) (st : bstate S) (acc : list N) : sres * list N * bstate S :=
+  Fixpoint read_sequence (fuel : nat) (s : sstate S) (acc : list N) : sres * list N * sstate S :=
     match fuel with
-    | 0 => (SNoFuel, acc, st)
+    | 0 => (SNoFuel, acc, s)
     | Datatypes.S fuel' =>
-      match seq_fill_buf (Datatypes.S fuel') st with
-      | (SOk, [], st') => (SOk, acc, st')
-      | (SOk, piece, st') => read_sequence fuel' (br_consume (length piece) st') (acc ++ piece)
-      | (e, _, st') => (e, acc, st')
+      let '(is_bol, pending, st) := s in
+      match seq_fill_buf (Datatypes.S fuel') is_bol pending st with
+      | (SOk, [], s') => (SOk, acc, s')
+      | (SOk, piece, s') => read_sequence fuel' (seq_consume (length piece) s') (acc ++ piece)
+      | (e, _, s') => (e, acc, s')
       end
     end.
 
-  (* ---- indexer *)
-  Definition count_bases (buf : list N) : nat := length (strip_cr buf).
+  (* ---- indexer: (status, line_width, base_count, state) *)
+  Definition csl_finish (ends_cr : bool) (bytes bases : nat) (st : bstate S) :=
+    (SOk, bytes, if ends_cr then bases - 1 else bases, st).
 
-  (* (status, line_width, base_count, state) *)
-  Fixpoint consume_sequence_line (fuel : nat) (st : bstate S) (is_eol : bool) (bytes bases : nat)
-    : sres * nat * nat * bstate S :=
+  Fixpoint consume_sequence_line (fuel : nat) (st : bstate S) (is_eol ends_cr : bool)
+    (bytes bases : nat) : sres * nat * nat * bstate S :=
     match fuel with
     | 0 => (SNoFuel, bytes, bases, st)
     | Datatypes.S fuel' =>
       match br_fill_buf rd cap st with
-      | (RInt, st1) => (SInt, bytes, bases, st1)
+      | (RInt, st1) => consume_sequence_line fuel' st1 is_eol ends_cr bytes bases
       | (ROk src, st1) =>
         match src with
-        | [] => (SOk, bytes, bases, st1)
+        | [] => csl_finish ends_cr bytes bases st1
         | x :: _ =>
-          if is_eol || N.eqb x GT then (SOk, bytes, bases, st1)
+          if is_eol || ((bytes =? 0) && N.eqb x GT) then csl_finish ends_cr bytes bases st1
           else if has_byte LF src then
             let l := until_lf src in
             consume_sequence_line fuel' (br_consume (Datatypes.S (length l)) st1) true
-              (bytes + Datatypes.S (length l)) (bases + count_bases l)
+              (match l with [] => ends_cr | _ => last_cr l end)
+              (bytes + Datatypes.S (length l)) (bases + length l)
           else
-            consume_sequence_line fuel' (br_consume (length src) st1) false
-              (bytes + length src) (bases + count_bases src)
+            consume_sequence_line fuel' (br_consume (length src) st1) false (last_cr src)
+              (bytes + length src) (bases + length src)
         end
       end
     end.
 End Scan.
 
-(* ---- closed forms on the flat data (what every chunking must produce on well-formed input) *)
-Definition is_nl (b : N) : bool := N.eqb b CR || N.eqb b LF.
+(* ---- closed forms on the flat data: what every delivery must produce *)
+Inductive lstate := BOL | MID.
 
-Fixpoint take_seq (d : list N) : list N :=
+(* line terminator = LF optionally preceded by one CR; CRs at the start of a line are skipped; a CR
+   elsewhere is data; '>' ends the sequence only at the start of a line; a CR just before the end
+   of input is dropped *)
+Fixpoint seq_out (st : lstate) (d : list N) : list N :=
   match d with
   | [] => []
-  | x :: r => if N.eqb x GT then [] else x :: take_seq r
+  | x :: r =>
+    if N.eqb x LF then seq_out BOL r
+    else
+      match st with
+      | BOL => if N.eqb x CR then seq_out BOL r
+               else if N.eqb x GT then []
+               else x :: seq_out MID r
+      | MID => if N.eqb x CR then
+                 match r with
+                 | [] => []
+                 | y :: _ => if N.eqb y LF then seq_out MID r else x :: seq_out MID r
+                 end
+               else x :: seq_out MID r
+      end
   end.
 
-Definition seq_spec (d : list N) : list N := filter (fun b => negb (is_nl b)) (take_seq d).
+Definition seq_spec (d : list N) : list N := seq_out BOL d.
 
-(* well-formed sequence text: '>' only at the beginning of a line, CR only immediately before
-   LF or as the very last byte.  [bol] = the previous byte was LF (or this is the start). *)
-Fixpoint wf_seq (bol : bool) (d : list N) : Prop :=
+(* the raw line the indexer measures: nothing if the text starts with '>' *)
+Definition idx_line (d : list N) : list N :=
   match d with
-  | [] => True
-  | x :: r =>
-    if N.eqb x GT then bol = true
-    else if N.eqb x CR then match r with [] => True | y :: _ => y = LF end /\ wf_seq false r
-    else if N.eqb x LF then wf_seq true r
-    else wf_seq false r
+  | x :: _ => if N.eqb x GT then [] else take_line LF d
+  | [] => []
   end.
